@@ -44,7 +44,7 @@ func (c Channel) TokenReader() xml.TokenReader {
 	}
 	if len(c.Extensions) > 0 {
 		payloads = append(payloads, xmlstream.Wrap(
-			xml.NewDecoder(bytes.NewReader(c.Extensions)),
+			extensionsReader{d: xml.NewDecoder(bytes.NewReader(c.Extensions))},
 			xml.StartElement{
 				Name: xml.Name{Local: "extensions"},
 			},
@@ -68,6 +68,32 @@ func (c Channel) TokenReader() xml.TokenReader {
 			Attr: conferenceAttrs,
 		},
 	)
+}
+
+// extensionsReader reads the tokens of the raw extension elements.
+// The names of decoded tokens carry their namespace and whatever encodes the
+// tokens again declares the namespaces it finds in the names, so the namespace
+// declarations are dropped from the attributes; passing them on would write
+// every declaration a second time (a duplicate attribute, which is not
+// well-formed XML).
+type extensionsReader struct {
+	d *xml.Decoder
+}
+
+func (r extensionsReader) Token() (xml.Token, error) {
+	tok, err := r.d.Token()
+	if start, ok := tok.(xml.StartElement); ok {
+		attr := make([]xml.Attr, 0, len(start.Attr))
+		for _, a := range start.Attr {
+			if a.Name.Space == "xmlns" || (a.Name.Space == "" && a.Name.Local == "xmlns") {
+				continue
+			}
+			attr = append(attr, a)
+		}
+		start.Attr = attr
+		tok = start
+	}
+	return tok, err
 }
 
 // WriteXML satisfies the xmlstream.WriterTo interface.
